@@ -12,7 +12,7 @@
    The casts `as u32` / `as u16` of the interval synthesis are explicit; the width of the `len` cast is a
    parameter ([wl], 16 in the code) so that the wrap-around can also be exhibited on a small instance. *)
 From Coq Require Import NArith List Bool Arith.
-From DBG Require Import Spec.Dna.
+From DBG Require Import Spec.Dna Spec.ScanSpec.
 Import ListNotations.
 Open Scope nat_scope.
 
@@ -30,12 +30,14 @@ Definition mp_min (a b : minpos) : minpos := match mp_cmp a b with Gt => b | _ =
 
 (* struct MspIntervalP<P> { minimizer: P, start: u32, len: u16, minimizer_pos: u32 } *)
 Record interval := mkInterval { iv_minimizer : dna; iv_mpos : N; iv_start : N; iv_len : N }.
-(* the same before the narrowing casts (usize values) *)
-Record ivl := mkIvl { i_min : dna; i_mpos : nat; i_start : nat; i_len : nat }.
+(* the same before the narrowing casts (usize values): [sivl] of Spec/ScanSpec.v *)
 
 Definition cast (w : N) (n : nat) : N := (N.of_nat n mod 2 ^ w)%N.
-Definition cast_iv (wl : N) (x : ivl) : interval :=
-  mkInterval (i_min x) (cast 32 (i_mpos x)) (cast 32 (i_start x)) (cast wl (i_len x)).
+Definition cast_iv (wl : N) (x : sivl) : interval :=
+  mkInterval (s_min x) (cast 32 (s_mpos x)) (cast 32 (s_start x)) (cast wl (s_len x)).
+(* reading a reported interval back as plain numbers *)
+Definition iv_nat (x : interval) : sivl :=
+  mkS (iv_minimizer x) (N.to_nat (iv_mpos x)) (N.to_nat (iv_start x)) (N.to_nat (iv_len x)).
 
 Section Scanner.
   Variable score : dna -> N.
@@ -82,18 +84,18 @@ Section Scanner.
     let '(_, _, acc) := fold_left scan_step (List.seq 1 (length seq - k)) scan_init in rev acc.
 
   (* "Generate the slices of the final string" (values before the casts) *)
-  Fixpoint synth (l : list (nat * minpos)) : list ivl :=
+  Fixpoint synth (l : list (nat * minpos)) : list sivl :=
     match l with
     | [] => []
     | (start_pos, min_pos) :: rest =>
         match rest with
-        | [] => [mkIvl (mkmer min_pos) (mpos min_pos) start_pos (length seq - start_pos)]
+        | [] => [mkS (mkmer min_pos) (mpos min_pos) start_pos (length seq - start_pos)]
         | (next_pos, _) :: _ =>
-            mkIvl (mkmer min_pos) (mpos min_pos) start_pos (next_pos + k - 1 - start_pos) :: synth rest
+            mkS (mkmer min_pos) (mpos min_pos) start_pos (next_pos + k - 1 - start_pos) :: synth rest
         end
     end.
 
-  Definition scan_raw : list ivl := synth min_positions.
+  Definition scan_raw : list sivl := synth min_positions.
 
   Definition scan_guard : bool :=
     (k <=? length seq) && (N.of_nat (length seq) <? 2 ^ 32)%N && (p <=? k) && (1 <=? p).
